@@ -32,6 +32,19 @@ func encP(o types.EncoderTo) []byte {
 
 func freshLike(o any) any { return reflect.New(reflect.TypeOf(o).Elem()).Interface() }
 
+// receiver is the variable a message of like's type is read into: a new one,
+// or (a client's response object in a loop) the one that held the last
+// message of that type on this connection.
+func receiver(prev map[reflect.Type]pobj, like pobj, reuse bool) pobj {
+	ty := reflect.TypeOf(like)
+	if o, ok := prev[ty]; ok && reuse {
+		return o
+	}
+	o := freshLike(like).(pobj)
+	prev[ty] = o
+	return o
+}
+
 // exchange is one request/response of a scripted session over RHP2 or RHP3.
 type exchange struct {
 	name    string
@@ -43,6 +56,7 @@ type exchange struct {
 	errData []byte
 	errSet  bool
 	atLimit bool // RHP2: the response frame is exactly as long as the reader's limit
+	reuse   bool // the reader takes the message into the variable that held the last message of this type
 	reqEnc  []byte
 	respEnc []byte
 	maxReq  uint64 // limit the reader passes
@@ -168,6 +182,7 @@ func buildExchanges(t *sim.Tape, v int, overlimit bool) []exchange {
 		if v == 2 && ex.respErr == "" && t.Chance(1, 4) {
 			ex.raw = true
 		}
+		ex.reuse = t.Chance(1, 2)
 		out = append(out, ex)
 	}
 	if overlimit {
@@ -213,6 +228,7 @@ var errTampered = errors.New("tampered")
 
 // runRHP2 runs the exchanges over the encrypted RHP2 transport.
 func runRHP2(s *Session, exs []exchange, wrongKey bool) {
+	prevReq, prevResp := map[reflect.Type]pobj{}, map[reflect.Type]pobj{} // (one side each: no sharing between the tasks)
 	hostKey := types.NewPrivateKeyFromSeed(sim.HashBytes("host", 1, 1, 32))
 	claimed := hostKey.PublicKey()
 	if wrongKey {
@@ -267,7 +283,7 @@ func runRHP2(s *Session, exs []exchange, wrongKey bool) {
 					}
 				}
 			} else {
-				got = freshLike(ex.resp).(pobj)
+				got = receiver(prevResp, ex.resp, ex.reuse)
 				err = t.ReadResponse(got, ex.maxResp)
 			}
 			e.inc("rpc.read")
@@ -345,7 +361,7 @@ func runRHP2(s *Session, exs []exchange, wrongKey bool) {
 				e.violate("C19", "rhp2-id-altered", fmt.Sprintf("exchange %d: read id %v, renter wrote %v", i, id, ex.id))
 			}
 			if ex.req != nil {
-				got := freshLike(ex.req).(pobj)
+				got := receiver(prevReq, ex.req, ex.reuse)
 				if err := t.ReadRequest(got, ex.maxReq); err != nil {
 					if !s.anyFault() {
 						e.violate("C19", "rhp2-valid-message-rejected", fmt.Sprintf("exchange %d: %s request (%d bytes, limit %d) could not be read: %v", i, ex.name, len(ex.reqEnc), ex.maxReq, err))
@@ -399,6 +415,7 @@ func runRHP2(s *Session, exs []exchange, wrongKey bool) {
 
 // runRHP3 runs the exchanges over the RHP3 transport (real mux).
 func runRHP3(s *Session, exs []exchange, wrongKey bool) {
+	prevReq, prevResp := map[reflect.Type]pobj{}, map[reflect.Type]pobj{} // (one side each: no sharing between the tasks)
 	hostKey := types.NewPrivateKeyFromSeed(sim.HashBytes("host", 3, 1, 32))
 	claimed := hostKey.PublicKey()
 	if wrongKey {
@@ -430,7 +447,7 @@ func runRHP3(s *Session, exs []exchange, wrongKey bool) {
 				st.Close()
 				return
 			}
-			got := freshLike(ex.resp).(pobj)
+			got := receiver(prevResp, ex.resp, ex.reuse)
 			err := st.ReadResponse(got, ex.maxResp)
 			e.inc("rpc.read")
 			var re *rhp3.RPCError
@@ -492,7 +509,7 @@ func runRHP3(s *Session, exs []exchange, wrongKey bool) {
 				e.violate("C19", "rhp3-id-altered", fmt.Sprintf("exchange %d: read id %v, renter wrote %v", i, id, ex.id))
 			}
 			if ex.req != nil {
-				got := freshLike(ex.req).(pobj)
+				got := receiver(prevReq, ex.req, ex.reuse)
 				if err := st.ReadRequest(got, ex.maxReq); err != nil {
 					if !s.anyFault() {
 						e.violate("C19", "rhp3-valid-message-rejected", fmt.Sprintf("exchange %d: %s request (%d bytes, limit %d) could not be read: %v", i, ex.name, len(ex.reqEnc), ex.maxReq, err))
